@@ -353,6 +353,30 @@ int main(void)
 			}
 			free(ptxt);
 		}
+		else if (!strcmp(op, "splitn") && drv_nw == 5) {
+			/* explicit length: the text behind the range is not part of the path */
+			MPT_STRUCT(path) p = MPT_PATH_INIT;
+			int n, first = 1, cnt;
+			size_t take;
+			ptxt = get_text(drv_w[2], &plen);
+			if (!ptxt || get_char(drv_w[3], &sep) || drv_parse_nat(drv_w[4], &take) || take > plen) { puts("bad-op"); free(ptxt); continue; }
+			p.sep = sep; p.assign = 0;
+			cnt = mpt_path_set(&p, ptxt, (int) take);
+			strcpy(out, "elems=");
+			while (p.len && (n = mpt_path_next(&p)) >= 0) {
+				size_t start = p.off - (size_t) n - 1;
+				if (p.off < (size_t) n + 1 || p.off > take + 1) { strcat(out, "?outside"); break; }
+				put_elems(out, sizeof(out), ptxt + start, (size_t) n, first);
+				first = 0;
+			}
+			if (first) strcat(out, "none");
+			{
+				char ret[64];
+				snprintf(ret, sizeof(ret), "%d", cnt);
+				result(out, ret);
+			}
+			free(ptxt);
+		}
 		else if (!strcmp(op, "last") && drv_nw == 5) {
 			MPT_STRUCT(path) p = MPT_PATH_INIT;
 			size_t skip, i;
